@@ -224,6 +224,20 @@ func ivalHandler1(args []string, g *guards) (string, []string) {
 	}
 	var ps propSink
 	switch args[0] {
+	case "abuse":
+		// ival abuse <hex text> <list>[;<list>…]
+		text, ok := unhex(args[1])
+		if !ok || len(args) != 3 {
+			return "bad-request", nil
+		}
+		var lists []interval.IntervalList
+		for _, s := range strings.Split(args[2], ";") {
+			if l, ok := parseIvs(s); ok {
+				lists = append(lists, l)
+			}
+		}
+		ivalAbuse(text, lists)
+		return "ok", nil
 	case "norm":
 		l, ok := parseIvs(args[1])
 		if !ok {
